@@ -42,8 +42,8 @@ import (
 // per-request filtering settings hook.  One line is one configuration plus K
 // concurrent requests:
 //
-//	C03.sblock conf-fields… K (proto ipkind addr zone sni hostBlocked qname qtype path qclass)*K
-//	   =>  (reply upstream logged counted)*K filtered
+//	C03.sblock conf-fields… reconf K (proto ipkind addr zone sni hostBlocked qname qtype path qclass)*K
+//	   =>  (reply upstream logged counted)*K filtered H n reported-blocked-host*n
 //
 // reply ∈ none | refused | servfail | processed.
 
@@ -105,6 +105,7 @@ const (
 )
 
 var (
+	c03sUps          []upstream.Upstream
 	c03sHTTPPort     uint16
 	c03sResolver     dnscrypt.ResolverConfig
 	c03sDNSCryptCert *dnscrypt.Cert
@@ -188,7 +189,7 @@ func c03sStart(srvName string, strict bool, allowed, blocked, hosts []string) (s
 		return nil, nil, nil, err
 	}
 
-	s.conf.UpstreamConfig.Upstreams = []upstream.Upstream{&aghtest.UpstreamMock{
+	c03sUps = []upstream.Upstream{&aghtest.UpstreamMock{
 		OnAddress: func() (addr string) { return "c03.upstream.example" },
 		OnExchange: func(req *dns.Msg) (resp *dns.Msg, err error) {
 			cnt.inc(cnt.upstream, req.Question[0].Name)
@@ -204,6 +205,7 @@ func c03sStart(srvName string, strict bool, allowed, blocked, hosts []string) (s
 		},
 		OnClose: func() (err error) { return nil },
 	}}
+	s.conf.UpstreamConfig.Upstreams = c03sUps
 
 	err = s.Start()
 	if err != nil {
@@ -481,8 +483,9 @@ func c03sRun(f []string) []string {
 	allowed, i := c03TakeList(f, 3, 5)
 	blocked, i := c03TakeList(f, i, 5)
 	hosts, i := c03TakeList(f, i, 1)
-	k := vutil.Atoi(f[i])
-	i++
+	reconf := vutil.UnB(f[i])
+	k := vutil.Atoi(f[i+1])
+	i += 2
 	reqs := make([]c03sReq, k)
 	for j := range reqs {
 		g := f[i : i+10]
@@ -499,6 +502,14 @@ func c03sRun(f []string) []string {
 		return []string{"starterr", vutil.Hex(err.Error())}
 	}
 	c03sHTTPPort = uint16(hs.Listener.Addr().(*net.TCPAddr).Port)
+	if reconf {
+		// Reconfigure(nil): stop, Prepare once more on the stored configuration, start.
+		if err = s.Reconfigure(nil); err != nil {
+			return []string{"starterr", vutil.Hex(err.Error())}
+		}
+		// Prepare parsed the upstream addresses again: put the counting one back.
+		s.conf.UpstreamConfig.Upstreams = c03sUps
+	}
 	defer func() {
 		hs.Close()
 		_ = s.Stop()
@@ -527,7 +538,15 @@ func c03sRun(f []string) []string {
 			vutil.Itoa(cnt.get(cnt.counted, r.qname)))
 	}
 
-	return append(out, vutil.Itoa(int(cnt.filtered.Load())))
+	out = append(out, vutil.Itoa(int(cnt.filtered.Load())))
+	// what GET /control/access/list reports as blocked hosts
+	reported := s.accessListJSON().BlockedHosts
+	out = append(out, "H", vutil.Itoa(len(reported)))
+	for _, h := range reported {
+		out = append(out, vutil.Hex(h))
+	}
+
+	return out
 }
 
 // c03sLocalAddrs returns the source addresses requests can be sent from.
@@ -567,7 +586,8 @@ func c03sGen(r *rand.Rand, emit vutil.Emit) {
 	local := c03sLocalAddrs()
 	ids := []string{"cli", "other", "a-b"}
 	hostRules := []string{"||blocked.example^", "*.wild.example", "||*^$dnstype=AAAA", "UPPER.example", "||version.bind^"}
-	bases := []string{"blocked.example.", "wild.example.", "ok.example.", "fine.org.", "Blocked.Example.", "Version.Bind."}
+	bases := []string{"blocked.example.", "wild.example.", "ok.example.", "fine.org.", "Blocked.Example.", "Version.Bind.", "id.server.",
+		"hostname.bind."}
 	for b := 0; b < n; b++ {
 		// entries: the local addresses, nets around them, ids
 		var pool []string
@@ -604,7 +624,14 @@ func c03sGen(r *rand.Rand, emit vutil.Emit) {
 		for k := r.IntN(3); k > 0; k-- {
 			hosts = append(hosts, vutil.Pick(r, hostRules))
 		}
-		oracle := c03NewOracle(hosts)
+		// An empty configured list means the default names are blocked (and
+		// reported as blocked): the oracle engine is built from what the access
+		// settings say, never from what the server built.
+		effective := hosts
+		if len(effective) == 0 {
+			effective = []string{"version.bind", "id.server", "hostname.bind"}
+		}
+		oracle := c03NewOracle(effective)
 		// Strict SNI checking is also enforced inside the TLS handshake
 		// (onGetCertificate), a different mechanism; the socket run keeps it off
 		// so that every generated server name reaches HandleBefore.
@@ -624,7 +651,7 @@ func c03sGen(r *rand.Rand, emit vutil.Emit) {
 		}
 
 		const k = 12
-		f = append(f, vutil.Itoa(k))
+		f = append(f, vutil.B(r.IntN(4) == 0), vutil.Itoa(k))
 		for j := 0; j < k; j++ {
 			ip := vutil.Pick(r, local)
 			proto := []string{"udp", "udp", "tcp", "tls", "https", "quic", "dnscrypt", "https"}[r.IntN(8)]
